@@ -82,3 +82,17 @@ pub assume_specification[ String::reserve ](s: &mut String, n: usize)
     ensures
         final(s)@ == old(s)@,
 ;
+
+/// IEEE finiteness (uninterpreted: floats are not interpreted by the verifier)
+pub uninterp spec fn f64_finite(x: f64) -> bool;
+pub uninterp spec fn f32_finite(x: f32) -> bool;
+
+pub assume_specification[ f64::is_finite ](x: f64) -> (r: bool)
+    ensures
+        r == f64_finite(x),
+;
+
+pub assume_specification[ f32::is_finite ](x: f32) -> (r: bool)
+    ensures
+        r == f32_finite(x),
+;
